@@ -398,7 +398,9 @@ class Body:
         if key in memo:
             v = memo[key]
             if v is None:
-                return ("cycle", local)
+                # re-entered while being computed (loop-carried / self-mutating value): a lazy
+                # reference that walkers resolve against the finished memo table
+                return ("lazy", self, key)
             return v
         if depth > 60:
             return ("unknown", "depth")
@@ -579,6 +581,10 @@ def walk(e, seen=None):
             stack.append(x[2])
         elif tag == "mut":
             stack.append(x[1])
+        elif tag == "lazy":
+            v = x[1]._expr_memo.get(x[2])
+            if v is not None:
+                stack.append(v)
 
 
 def arg_name(a):
@@ -610,9 +616,9 @@ def leaves(e, facts=None, depth=0):
                 out.add("call:" + x[2])
             if is_tail(x[2], LEN_TAILS) or x[1].endswith("::len") or x[1].endswith("::is_empty"):
                 for a in x[3][:1]:
-                    for lf in leaves(a):
-                        if lf.startswith("a"):
-                            out.add("len:" + lf)
+                    for y in walk(a):
+                        if y[0] == "arg":
+                            out.add("len:" + arg_name(y[1]) + "".join("." + f for f in y[2]))
         elif tag == "closure":
             out.add("closure:" + x[1])
             if facts is not None and depth < 3:
@@ -623,9 +629,9 @@ def leaves(e, facts=None, depth=0):
                 if not f.startswith("@") and f != "[]" and not f.isdigit():
                     out.add("field:" + f)
         elif tag == "un" and x[1] == "PtrMetadata":
-            for lf in leaves(x[2]):
-                if lf.startswith("a"):
-                    out.add("len:" + lf)
+            for y in walk(x[2]):
+                if y[0] == "arg":
+                    out.add("len:" + arg_name(y[1]) + "".join("." + f for f in y[2]))
     return out
 
 
@@ -728,4 +734,6 @@ def fmt_expr(e, depth=0):
         return "%s.%s" % (fmt_expr(e[2], depth + 1), ".".join(e[1]))
     if tag == "mut":
         return "mutated_by(%s)" % fmt_expr(e[1], depth + 1)
+    if tag == "lazy":
+        return "<loop>"
     return tag
